@@ -3,7 +3,12 @@ import importlib
 import os
 import sys
 
+import logging
+
 from vp.core import main_wrapper
+
+logging.getLogger("transitions").setLevel(logging.ERROR)
+logging.getLogger("transitions.core").setLevel(logging.ERROR)
 
 
 def main():
